@@ -27,12 +27,13 @@ CONF = dict(
              'the scripted SCION NTP peer of the harness (gopacket/slayers encoding of replies with an empty SCION path) and the kernel UDP loopback'],
     technique=('Coq proofs over a Gallina model of crypto.RandIntn/Sample and of MeasureClockOffsetSCION: permutation invariant of the sticky loop with swap-remove, reservoir invariant '
                '(slots hold distinct earlier candidates, sources strictly increase) by induction over the pick list for every tape, counting of residue classes of accepted words by '
-               'Euclidean division (nia), permutation invariance of the fault-tolerant midpoint, counting of draw vectors by induction for the per-candidate inclusion probability k/n; '
+               'Euclidean division (nia), permutation invariance of the fault-tolerant midpoint, counting of enumerated draw vectors by induction over the draws, generalised over the reservoir state (a k-subset T with t members still to come is reached by t! (n-k)!/(i-k+t)! of the vectors from draw i on), giving (n-k)! vectors per k-subset, and the per-candidate inclusion probability k/n; '
                'the oracle is proved to accept every round of the model; differential execution of the extracted model against the real functions on scripted tapes and against the '
                'real MeasureClockOffsetSCION over loopback SCION exchanges'),
     level_text=('Theorems hold for all numbers of clients and offered paths, all client states (in interleaved mode or not, previous path present / withdrawn / shared with other clients / '
-                'duplicated among the offered paths), all tapes and all completion orders; near-uniformity of RandIntn for all 2 <= n < 2^31; reservoir uniformity is proved per candidate '
-                '(inclusion probability exactly k/n for all k <= n), not per subset (named _partial). The model is tied to the code on every run by replaying generated histories on the '
+                'duplicated among the offered paths), all tapes and all completion orders; near-uniformity of RandIntn for all 2 <= n < 2^31; reservoir uniformity is proved per subset '
+                '(with exact uniform draws every k-subset of the n candidates is selected by exactly (n-k)! of the n!/k! draw vectors, for all k <= n; the statement is about the set of '
+                'selected candidates, the slot order is not uniform) and per candidate (inclusion probability exactly k/n). The model is tied to the code on every run by replaying generated histories on the '
                 'real MeasureClockOffsetSCION with real SCION clients and by comparing RandIntn/Sample with the model on scripted tapes; the C15 oracle is evaluated on the implementation\'s observations'),
     level_note=('Trusted: Coq kernel, hand-written model validated by the correspondence run, extraction, harness incl. its scripted peer. No hook needed (exported API, replaced rand.Reader, '
                 'recording filter, DSCP as client tag). No axioms. The earlier behaviour (failed participants counted as offset 0, all-fail round = offset 0 without error) was noticed while this check was built; /repo fixed it in 3dfc5bf; its reverse is one of the regression mutants.'),
